@@ -50,6 +50,7 @@ type Term struct {
 	base    *Term
 	off     *big.Int
 	lenHint *Term
+	parts   []*Term // operands of a string concatenation (kept for structural splitting)
 }
 
 func (t *Term) String() string { return t.S }
@@ -552,7 +553,15 @@ func Concat(ts ...*Term) *Term {
 	case 1:
 		return xs[0]
 	}
-	return &Term{S: app("str.++", xs...), Sort: SStr}
+	var flat []*Term
+	for _, x := range xs {
+		if x.parts != nil {
+			flat = append(flat, x.parts...)
+		} else {
+			flat = append(flat, x)
+		}
+	}
+	return &Term{S: app("str.++", xs...), Sort: SStr, parts: flat}
 }
 
 func Substr(s, off, n *Term) *Term {
